@@ -247,7 +247,7 @@ Qed.
 
 Lemma dec_raft_total data : dec_raft data <> DPanic.
 Proof.
-  unfold dec_raft.
+  unfold dec_raft. destruct (negb (5 <? blen data)); [discriminate|].
   repeat match goal with |- context [let '(_, _) := ?x in _] => destruct x end.
   destruct (blen data <? _); [discriminate|].
   repeat match goal with
@@ -258,7 +258,7 @@ Qed.
 
 Lemma dec_region_total data : dec_region data <> DPanic.
 Proof.
-  unfold dec_region.
+  unfold dec_region. destruct (negb (5 <? blen data)); [discriminate|].
   destruct (uv_at data 5) as [id p0].
   destruct (blen data <? p0); [discriminate|].
   destruct (opt_flag data p0) as [[del p1]| |] eqn:E; [|discriminate|exfalso; eapply opt_flag_total; eauto].
@@ -307,7 +307,7 @@ Qed.
 Lemma dec_region_peers data r :
   dec_region data = DVal (Some r) -> N.of_nat (length (rg_peers (re_meta r))) <= blen data.
 Proof.
-  unfold dec_region.
+  unfold dec_region. destruct (negb (5 <? blen data)); [discriminate|].
   destruct (uv_at data 5) as [id p0].
   destruct (blen data <? p0); [discriminate|].
   destruct (opt_flag data p0) as [[del p1]| |]; try discriminate.
